@@ -102,3 +102,11 @@ claim('C11',
       'sampling. Not decided: floating-point evaluation error.',
       'Trusted: the atom table mapping source expressions to symbols in dsa/rules/c11.py; dsa/poly.py; positivity of k, h, L.',
       'DESIGN.md 4 C11')
+claim('C07',
+      'constant folding and algebraic consistency checks of hard-coded hexagonal direction/angle tables across modules; def-use pairing of the swirl donor column',
+      'Only the hard-coded tables of C07 are decided (DESIGN 4.7): every direction/angle table (core._dirs and its rotations, the two ring walks, assembly-walk normals, pin index and x-y steps, '
+      'edge/corner/interior subchannel angles) is hexagonally consistent (closed six-cycles, antipodal entries, constant 60-degree progression, 30-degree corner offset, one linear map between '
+      'index steps and coordinate steps) and sibling tables in different modules agree; the swirl donor column chosen per wire direction is the column the closed exterior ring writes for that '
+      'direction. These are necessary conditions: one wrong entry breaks rotation equivariance of every bundle/core. Equivariance of computed fields is NOT decided.',
+      'Trusted: constant folder dsa/util.const_eval; the geometric meaning attached to each table.',
+      'DESIGN.md 4 C07')
